@@ -42,6 +42,10 @@ def uLine (ws : List String) : String := Id.run do
     | ["get", i, c] => if impl.get (i.toNat?.getD 0) ≠ some (hexVal! c) then issues := issues ++ [s!"ORACLE C17 get({i}) = {c}"]
     | ["slice", a, b, c] | ["sliceu32", a, b, c] =>
       if (impl.slice (a.toNat?.getD 0) (b.toNat?.getD 0)).content ≠ parseCps c then issues := issues ++ [s!"ORACLE C17 {op} differs from the content's range"]
+    | ["sliceattr", a, b, l, e] =>
+      let want := b.toNat?.getD 0 - a.toNat?.getD 0
+      if l.toNat? ≠ some want || e ≠ (if want = 0 then "1" else "0") then
+        issues := issues ++ [s!"ORACLE C17 slice({a}..{b}) reports len {l} / is_empty {e}, its content has {want} characters"]
     | ["sliceincl", a, b, c] =>
       if (impl.slice (a.toNat?.getD 0) (b.toNat?.getD 0 + 1)).content ≠ parseCps c then issues := issues ++ [s!"ORACLE C17 {op} differs from the content's range"]
     | ["sl", fi, lo, hi, vv, c] =>
